@@ -335,6 +335,8 @@ _b.rec, _b.ident, _b.Box = rec, ident, Box
 def accepted_names(prog):
     names = [".".join(prog["pkg"][: prog.get("accept", 1)])]
     names += [f"decoy{i}" for i in range(prog.get("decoys", 0))]
+    # further packages accepted AFTER the program's own one, e.g. a name that is a plain string prefix of it
+    names += list(prog.get("accept_after", []))
     return names
 
 
